@@ -1,12 +1,54 @@
 import BfeVerif.Common.Proto
 import BfeVerif.C40.Model
+/-!
+  C40 driver.  op `sv <adv> E…` (client frames S D W R I P, handler commands r w f), `fa`, `ft`: see harness/cmd/c40.
+  verdict = the client-side MONITOR (`monitor`): an executable statement of the stream / flow-control rules, run on
+  the op and on the tokens the IMPLEMENTATION printed (it never looks at the model's state).
+-/
 namespace BfeVerif.C40
 open BfeVerif.Proto
+
+/-! ### rendering (as `render` of the harness) -/
+
+def Out.id : Out → Nat
+  | .rst id _ | .wu id _ | .reply id _ | .data id _ _ => id
+  | .goaway .. | .ping _ => 0
 
 def Out.str : Out → String
   | .rst a b => s!"rst({a},{b})"
   | .goaway a b => s!"goaway({a},{b})"
   | .ping a => s!"ping({a})"
+  | .wu a b => s!"wu({a},{b})"
+  | .reply a f => s!"reply({a},{if f then 1 else 0})"
+  | .data a l f => s!"data({a},{l},{if f then 1 else 0})"
+
+/-- merge the WINDOW_UPDATEs of one stream id into the first one -/
+def mergeWu : List Out → List Out → List Out
+  | [], acc => acc
+  | .wu id n :: t, acc =>
+    if acc.any (fun o => match o with | .wu i _ => i == id | _ => false) then
+      mergeWu t (acc.map fun o => match o with
+        | .wu i m => if i == id then .wu i (m + n) else .wu i m
+        | x => x)
+    else mergeWu t (acc ++ [.wu id n])
+  | o :: t, acc => mergeWu t (acc ++ [o])
+
+def insertById (o : Out) : List Out → List Out
+  | [] => [o]
+  | x :: t => if o.id < x.id then o :: x :: t else x :: insertById o t
+
+def renderEvent (os : List Out) : String :=
+  let sorted := (mergeWu os []).foldl (fun acc o => insertById o acc) []
+  "[" ++ ",".intercalate (sorted.map Out.str) ++ "]"
+
+def renderRun (r : List (List Out) × Status × State) : String :=
+  let evs := r.1.map renderEvent
+  let tail := match r.2.1 with
+    | .run => []
+    | .closed => ["closed"]
+    | .stop => ["stop"]
+    | .panic => ["PANIC"]
+  " ".intercalate (evs ++ tail)
 
 def parseEv (t : String) : Option Ev :=
   let body := (t.drop 1).toString
@@ -18,34 +60,224 @@ def parseEv (t : String) : Option Ev :=
   | "R", some [a, b] => if b = 0 then none else some (.rst a b)
   | "I", some [a] => some (.iws a)
   | "P", some [a] => some (.ping a)
+  | "r", some [a, b] => if b ≤ 131072 then some (.hcmd a (.read b)) else none
+  | "w", some [a, b] => if b ≤ 131072 then some (.hcmd a (.write b)) else none
+  | "f", some [a] => some (.hcmd a .finish)
   | _, _ => none
 
-def renderRun (r : List (List Out) × Status × State) : String :=
-  let evs := r.1.map fun o => "[" ++ ",".intercalate (o.map Out.str) ++ "]"
-  let tail := match r.2.1 with
-    | .run => []
-    | .closed => ["closed"]
-    | .stop => ["stop"]
-    | .panic => ["PANIC"]
-  " ".intercalate (evs ++ tail)
+/-! ### the monitor: the property as seen by the client -/
+
+inductive MState | open | hcr | closed
+  deriving DecidableEq, Repr
+
+structure MSt where
+  id : Nat
+  state : MState
+  inWin : Int := 65536     -- what the server still advertises for this stream
+  outWin : Int             -- what the client still grants the server on this stream
+  deriving Repr
+
+structure Mon where
+  maxSeen : Nat := 0
+  streams : List MSt := []
+  connIn : Int := 65536
+  connOut : Int := 65536
+  iws : Int := 65536
+  void : Bool := false     -- the script left the protocol's domain (initial window >= 2^31): nothing more is demanded
+  deriving Repr
+
+inductive Tok
+  | rst (id c : Nat) | goaway (c : Nat) | ping (id : Nat) | wu (id n : Nat) | reply (id : Nat) (fin : Bool)
+  | data (id len : Nat) (fin : Bool) | other
+  deriving Repr, DecidableEq
+
+def parseTok (s : String) : Tok :=
+  match s.splitOn "(" with
+  | [name, rest] =>
+    let args := ((rest.dropEnd 1).toString.splitOn ",").map String.toNat?
+    match name, args with
+    | "rst", [some a, some b] => .rst a b
+    | "goaway", [some _, some b] => .goaway b
+    | "ping", [some a] => .ping a
+    | "wu", [some a, some b] => .wu a b
+    | "reply", [some a, some b] => .reply a (b != 0)
+    | "data", [some a, some b, some c] => .data a b (c != 0)
+    | _, _ => .other
+  | _ => .other
+
+/-- `[a(1,2),b(3)]` -> tokens -/
+def parseGroup (g : String) : List Tok :=
+  let inner := ((g.drop 1).toString.dropEnd 1).toString
+  if inner == "" then [] else
+  let parts := inner.splitOn "),"
+  let n := parts.length
+  (parts.mapIdx fun i p => if i + 1 < n then p ++ ")" else p).map parseTok
+
+def mFind (m : Mon) (id : Nat) : Option MSt := m.streams.find? (·.id = id)
+def mUpd (m : Mon) (id : Nat) (f : MSt → MSt) : Mon :=
+  { m with streams := m.streams.map fun x => if x.id = id then f x else x }
+
+def rstCode (toks : List Tok) (id : Nat) : Option Nat :=
+  toks.findSome? fun t => match t with | .rst i c => if i = id then some c else none | _ => none
+def goawayCode (toks : List Tok) : Option Nat :=
+  toks.findSome? fun t => match t with | .goaway c => some c | _ => none
+
+def maxWin : Int := 2147483647
+
+/-- the server's own frames, as the client accounts for them; `Except` = a rule is broken -/
+def monOut (m : Mon) : List Tok → Except String Mon
+  | [] => .ok m
+  | t :: rest =>
+    match t with
+    | .data id len fin =>
+      match mFind m id with
+      | none => .error "data-on-unknown-stream"
+      | some st =>
+        let o := st.outWin - len
+        let c := m.connOut - len
+        if len > 0 ∧ (o < 0 ∨ c < 0) then .error "out-window-exceeded"
+        else
+          let m := mUpd { m with connOut := c } id fun x =>
+            { x with outWin := o, state := if fin ∧ x.state = .hcr then .closed else x.state }
+          monOut m rest
+    | .wu id n =>
+      if id = 0 then
+        if m.connIn + n > 65536 then .error "over-replenished" else monOut { m with connIn := m.connIn + n } rest
+      else match mFind m id with
+        | none => monOut m rest
+        | some st =>
+          if st.inWin + n > 65536 then .error "over-replenished"
+          else monOut (mUpd m id fun x => { x with inWin := x.inWin + n }) rest
+    | .rst id _ => monOut (mUpd m id fun x => { x with state := .closed }) rest
+    | .reply id fin =>
+      monOut (mUpd m id fun x => { x with state := if fin ∧ x.state = .hcr then .closed else x.state }) rest
+    | _ => monOut m rest
+
+/-- what the property demands for one client frame, given the tokens the server answered with -/
+def monEvent (adv : Nat) (m : Mon) (e : Ev) (toks : List Tok) (closed : Bool) : Except String Mon :=
+  if m.void then .ok m else
+  match e with
+  | .syn id fin =>
+    if id = 0 then .ok m
+    else if id % 2 = 0 ∨ id < m.maxSeen then
+      if goawayCode toks = some 1 then .ok m else .error "bad-stream-id-accepted"
+    else if id = m.maxSeen then
+      if rstCode toks id = some 1 then monOut m toks else .error "duplicate-syn-accepted"
+    else
+      let live := (m.streams.filter (·.state ≠ .closed)).length
+      let m := { m with maxSeen := id,
+                        streams := m.streams ++ [{ id, state := if fin then .hcr else .open, outWin := m.iws }] }
+      if live + 1 > adv then (if closed then .ok m else .error "max-streams-not-enforced")
+      else if ((rstCode toks id).isSome ∧ rstCode toks id ≠ some 5) ∨ (goawayCode toks).isSome ∨ closed then
+        .error "syn-refused"
+      else monOut m toks
+  | .data id len fin =>
+    if id = 0 then .ok m else
+    match mFind m id with
+    | none =>
+      match rstCode toks id with
+      | none => .error "data-on-closed-stream-accepted"
+      | some c => if c = 2 then monOut m toks else .error "wrong-reset-code"
+    | some st =>
+      match st.state with
+      | .closed =>
+        match rstCode toks id with
+        | none => .error "data-on-closed-stream-accepted"
+        | some c => if c = 2 then monOut m toks else .error "wrong-reset-code"
+      | .hcr =>
+        match rstCode toks id with
+        | none => .error "data-on-half-closed-accepted"
+        | some c => if c = 9 then monOut m toks else .error "wrong-reset-code"
+      | .open =>
+        if (len : Int) > min st.inWin m.connIn then
+          match rstCode toks id with
+          | none => .error "over-window-data-accepted"
+          | some c => if c = 7 then monOut m toks else .error "wrong-reset-code"
+        else if (rstCode toks id).isSome ∧ rstCode toks id ≠ some 5 then .error "data-refused-within-window"
+        else
+          let m := mUpd { m with connIn := m.connIn - len } id fun x =>
+            { x with inWin := x.inWin - len, state := if fin then .hcr else x.state }
+          monOut m toks
+  | .wu id delta =>
+    let d : Int := (delta % 2147483648 : Nat)
+    if id = 0 then
+      if m.connOut + d > maxWin then
+        (if goawayCode toks = some 7 then .ok m else .error "window-overflow-accepted")
+      else if (goawayCode toks).isSome then .error "window-update-refused"
+      else monOut { m with connOut := m.connOut + d } toks
+    else match mFind m id with
+      | none => monOut m toks
+      | some st =>
+        if st.state = .closed then monOut m toks
+        else if st.outWin + d > maxWin then
+          match rstCode toks id with
+          | none => .error "window-overflow-accepted"
+          | some c => if c = 7 then monOut m toks else .error "wrong-reset-code"
+        else if (rstCode toks id).isSome ∧ rstCode toks id ≠ some 5 then .error "window-update-refused"
+        else monOut (mUpd m id fun x => { x with outWin := x.outWin + d }) toks
+  | .rst id _ =>
+    if id = 0 then .ok m else
+    match mFind m id with
+    | none =>
+      if id > m.maxSeen then (if goawayCode toks = some 1 then .ok m else .error "rst-on-idle-accepted")
+      else monOut m toks
+    | some st =>
+      -- bytes the client sent on an open stream and the handler never read are dropped with the stream: they have
+      -- to be given back to the connection window, or the connection's upload capacity shrinks for ever
+      let unread := if st.state = .open then 65536 - st.inWin else 0
+      let back := toks.foldl (fun a t => match t with | .wu 0 n => a + (n : Int) | _ => a) 0
+      if unread > 0 ∧ back < unread then .error "conn-window-not-returned-on-close"
+      else monOut (mUpd m id fun x => { x with state := .closed }) toks
+  | .iws val =>
+    if val ≥ 2147483648 then .ok { m with void := true }
+    else
+      let g : Int := (val : Int) - m.iws
+      let m' := { m with iws := val, streams := m.streams.map fun x =>
+                    if x.state = .closed then x else { x with outWin := x.outWin + g } }
+      if m'.streams.any (fun x => x.state ≠ .closed ∧ x.outWin > maxWin) then
+        (if goawayCode toks = some 7 then .ok m' else .error "window-overflow-accepted")
+      else if (goawayCode toks).isSome then .error "settings-refused"
+      else monOut m' toks
+  | .ping id =>
+    if id % 2 = 1 ∧ !toks.contains (.ping id) then .error "ping-not-echoed" else monOut m toks
+  | .hcmd _ _ => monOut m toks
+
+def monitor (adv : Nat) : Mon → List Ev → List String → Option String
+  | _, [], _ => none
+  | _, _, [] => none
+  | m, e :: es, g :: gs =>
+    if g == "closed" ∨ g == "stop" then none else
+    let closed := gs.head? == some "closed"
+    match monEvent adv m e (parseGroup g) closed with
+    | .error c => some c
+    | .ok m' => if closed ∨ gs.head? == some "stop" then none else monitor adv m' es gs
 
 def showInt (i : Int) : String := toString i
 
-def run' (op impl : String) : Ans :=
+def run (op impl : String) : Ans :=
   match op.splitOn " " with
   | "sv" :: adv :: evs =>
     match adv.toNat?, evs.mapM parseEv with
     | some a, some es =>
       if a = 0 then { model := "bad-op", verdict := "skip" } else
-      let r := runScript { adv := a } es
+      let r := runScript false { adv := a } es
       let model := renderRun r
+      let raced := renderRun (runScript true { adv := a } es) != model
       let bad := impl.startsWith "PANIC" || (impl.splitOn "HANG").length > 1 || (impl.splitOn "PANIC").length > 1
       let kinds := es.map fun e => match e with
         | .syn .. => "syn" | .data .. => "data" | .wu .. => "wu" | .rst .. => "rst" | .iws .. => "iws" | .ping .. => "ping"
+        | .hcmd _ (.read _) => "hread" | .hcmd _ (.write _) => "hwrite" | .hcmd _ _ => "hfin"
       let outs := (r.1.flatMap id).map fun o => match o with
-        | .rst _ c => s!"rst{c}" | .goaway _ c => s!"goaway{c}" | .ping _ => "echo"
-      { model, verdict := if bad then "FAIL:panic-or-hang" else "ok",
-        tags := ["sv"] ++ kinds.eraseDups ++ outs.eraseDups ++
+        | .rst _ c => s!"rst{c}" | .goaway _ c => s!"goaway{c}" | .ping _ => "echo" | .wu 0 _ => "wuconn"
+        | .wu _ _ => "wustream" | .reply .. => "reply" | .data _ 0 _ => "datafin" | .data .. => "dataout"
+      let verdict :=
+        if bad then "FAIL:panic-or-hang"
+        else if raced then "skip"
+        else match monitor a {} es (impl.splitOn " ") with
+          | some c => "FAIL:" ++ c
+          | none => "ok"
+      { model, verdict,
+        tags := ["sv"] ++ kinds.eraseDups ++ outs.eraseDups ++ (if raced then ["race"] else []) ++
           (match r.2.1 with | .closed => ["closed"] | .stop => ["stop"] | _ => []) ++
           (if es.length ≥ 2 then ["nt"] else []) }
     | _, _ => { model := "bad-op", verdict := "skip" }
@@ -55,13 +287,10 @@ def run' (op impl : String) : Ans :=
       let model := match flowAdd f n with
         | some x => s!"{showInt x} true"
         | none => s!"{showInt f} false"
-      -- spec of flow.add: "adds n; returns false if the sum would exceed 2^31-1"
+      -- spec of flow.add: adds n unless the sum leaves the int32 range (a window above 2^31-1 is a protocol error)
       let sum := f + n
-      let verdict :=
-        if sum < -2147483648 then "skip"
-        else
-          let want := if sum ≤ 2147483647 then s!"{showInt sum} true" else s!"{showInt f} false"
-          if impl == want then "ok" else if f < 0 then "FAIL:flow-add-negative-window" else "FAIL:flow-add"
+      let want := if -2147483648 ≤ sum ∧ sum ≤ 2147483647 then s!"{showInt sum} true" else s!"{showInt f} false"
+      let verdict := if impl == want then "ok" else if f < 0 then "FAIL:flow-add-negative-window" else "FAIL:flow-add"
       { model, verdict, tags := ["fa", if f < 0 then "neg" else "nonneg", "nt"] }
     | _, _ => { model := "bad-op", verdict := "skip" }
   | ["ft", a, b, c] =>
@@ -73,7 +302,5 @@ def run' (op impl : String) : Ans :=
       { model, verdict := "ok", tags := ["ft", if n > available s cf then "toomuch" else "fits", "nt"] }
     | _, _, _ => { model := "bad-op", verdict := "skip" }
   | _ => { model := "bad-op", verdict := "skip" }
-
-def run (op impl : String) : Ans := run' op impl
 
 end BfeVerif.C40
